@@ -599,6 +599,13 @@ Theorem C03_post_pvor_t_ok_sound : forall S vs rv, pvor_t_ok S vs rv = true -> p
 Proof. exact pvor_t_ok_spec. Qed.
 Print Assumptions C03_post_pvor_t_ok_sound.
 
+(* the index-level periodicity GENERALISES the exact one: every record that is exactly periodic near the cell is
+   periodic at the index level (so the _t theorems below cover both; the harness also records that no evaluated record
+   satisfies pvor_ok without satisfying pvor_t_ok) *)
+Theorem C03_post_pvor_implies_pvor_t : forall S vs rv, pvor S vs rv -> pvor_t S vs rv.
+Proof. exact pvor_implies_pvor_t. Qed.
+Print Assumptions C03_post_pvor_implies_pvor_t.
+
 (* degree = number of finite ridges, from the index-level periodicity *)
 Theorem C03_post_degree_t : forall S vs rv v, pvor_t S vs rv -> (v < length vs)%nat ->
   in_unit S (nth v vs (0, 0)) = true ->
